@@ -294,6 +294,37 @@ func genWiring() {
 		})
 		rearms = returns == 1 && guarded == 1
 	}
+	// the event loop of WatchFileForUpdates: each case of its select as "communication => statements": only the done
+	// channel ends the loop; an error reported by the watcher is logged and the loop goes on
+	var loopCases []string
+	if fd := funcDecl(wRel, "WatchFileForUpdates"); fd != nil && fd.Body != nil {
+		wtxt := func(n ast.Node) string { return strings.Join(strings.Fields(exprText(wRel, n)), " ") }
+		ast.Inspect(fd.Body, func(n ast.Node) bool {
+			sel, ok := n.(*ast.SelectStmt)
+			if !ok {
+				return true
+			}
+			for _, c := range sel.Body.List {
+				cc := c.(*ast.CommClause)
+				comm := "default"
+				if cc.Comm != nil {
+					comm = wtxt(cc.Comm)
+				}
+				var sts []string
+				for _, st := range cc.Body {
+					t := wtxt(st)
+					if strings.HasPrefix(t, "logger.") {
+						t = "log"
+					}
+					sts = append(sts, t)
+				}
+				loopCases = append(loopCases, comm+" => "+strings.Join(sts, "; "))
+			}
+			return false
+		})
+	}
+	g.line("(* the select of the watcher's event loop: \"communication => statements\" (logging abbreviated to log) *)")
+	g.line("Definition watcher_loop_cases : list (list N) := %s.", coqStrList(loopCases))
 	g.line("(* filterEvent: the case condition and the call statements of the Remove case / of the Write-Create case *)")
 	g.line("Definition watcher_remove_branch : list (list N) := %s.", coqStrList(rmBranch))
 	g.line("Definition watcher_write_branch : list (list N) := %s.", coqStrList(wrBranch))
